@@ -189,7 +189,7 @@ def run(ctx):
     configs += many_subsets
     # the tape-range hypotheses (r <= 2^(k+l); r_div ranges of trunc/_mod) against the bounds as coded in
     # _convert / _randoms, extracted from the source on this run
-    from props.c01 import check_mask_bounds, MUTATIONS
+    from props.c01 import check_mask_bounds, MUTATIONS, note_rounds, MAX_LIVELOCK_REPORTS, ROUND_CAP
     check_mask_bounds(ctx, ['convert', 'randoms'])
     # full sweeps of the <= 8-bit types: thorough m <= 3 (all six configurations), quick two configurations
     sweep_cfgs = {c for c in configs if c[0] <= 3} if thorough else {(3, 1, False), (1, 0, True)}
@@ -205,7 +205,12 @@ def run(ctx):
     import time
     per_config, obs = {}, []
     nvals = 0
+    livelocks = [0]
     for (m, t, np_) in configs:
+        if livelocks[0] >= MAX_LIVELOCK_REPORTS:
+            ctx.log('%d no-progress reports: remaining configurations skipped' % livelocks[0])
+            ctx.notes.append('remaining configurations skipped after %d no-progress reports' % livelocks[0])
+            break
         t0 = time.time()
         sweep = (m, t, np_) in sweep_cfgs
         full = (thorough and m <= 5) or (m, t, np_) == (3, 1, False)
@@ -242,7 +247,8 @@ def run(ctx):
                 if rng.random() < 0.1:
                     jobs.append((S, T, [rng.choice(keep)], 3 * rng.randrange(20)))
         def fresh_sim(extra=0):
-            sm = Sim(m=m, t=t, no_prss=np_, seed=ctx.seed * 137 + m * 11 + t + (500 if np_ else 0) + 7919 * extra)
+            sm = Sim(m=m, t=t, no_prss=np_, seed=ctx.seed * 137 + m * 11 + t + (500 if np_ else 0) + 7919 * extra,
+                     log_messages=False, track_tasks=False)      # no per-message logs: bounded memory
             st = sm.start()
             if not sm.started:
                 sm.close()
@@ -256,11 +262,15 @@ def run(ctx):
             while queue and sim is not None:
                 chunk, attempt = queue.pop(0)
                 policy = Fifo() if (attempt or rng.random() < 0.75) else RandomOrder(random.Random(rng.randrange(1 << 30)), lazy=0.1)
-                # idle_limit detects a deadlock; max_rounds must never cut a long but progressing run
-                res = sim.run(make_prog(chunk), policy, idle_limit=200000 * (1 + 2 * attempt), max_rounds=10 ** 12)
+                # deterministic round budget (clean tree: FIFO <= ~650 rounds per 12-job chunk independent of the list
+                # lengths, RandomOrder <= ~3100 rounds per job): 50 x a generous base, < 5*10^6; idle rounds count too
+                ro = isinstance(policy, RandomOrder)
+                budget = min(ROUND_CAP, 50 * ((4000 * len(chunk)) if ro else (600 + 150 * len(chunk))))
+                res = sim.run(make_prog(chunk), policy, idle_limit=budget, max_rounds=budget)
+                note_rounds(ctx, '%s jobs<=%d' % ('RandomOrder' if ro else 'Fifo', 12 if len(chunk) > 1 else 1), sim.rounds, budget)
                 if any(not isinstance(r, list) for r in res):
                     # unfinished / exception: runtimes are in an undefined state -> fresh simulator; the chunk is re-run
-                    # once, split into single jobs with at most 32 values each, before anything is reported
+                    # once, split into single jobs with at most 32 values each (FIFO), before anything is reported
                     sim.close()
                     nfresh += 1
                     sim = fresh_sim(extra=nfresh)
@@ -273,6 +283,19 @@ def run(ctx):
                         ctx.notes.append('chunk re-run split in a fresh simulator (m=%d t=%d no_prss=%s): first attempt %s' % (
                             m, t, np_, repr(res)[:160]))
                         continue
+                    if any(r == 'PENDING' for r in res) and not any(isinstance(r, tuple) for r in res):
+                        ctx.case({'S': tname(chunk[0][0]), 'T': tname(chunk[0][1]), 'm': m, 't': t, 'np': np_, 'livelock': True}, kind='no-progress')
+                        ctx.violation('no-progress/livelock convert %s->%s m=%d t=%d %s' % (tname(chunk[0][0]), tname(chunk[0][1]), m, t,
+                                                                                         'noPRSS' if np_ else 'PRSS'),
+                                      {'m': m, 't': t, 'no_prss': np_, 'jobs': [(S, T, v, sl) for S, T, v, sl in chunk],
+                                       'round_budget': budget, 'rounds': budget,
+                                       'what': 'the conversion did not finish within its round budget, alone in a fresh simulator '
+                                               'with FIFO delivery (after the chunk containing it did not finish either)'})
+                        livelocks[0] += 1
+                        if sim is not None:
+                            sim.close()
+                        sim = None
+                        break                   # go on with the next configuration
                     ctx.violation('run-failed m=%d t=%d %s %s' % (m, t, 'noPRSS' if np_ else 'PRSS',
                                                                  '%s->%s' % (tname(chunk[0][0]), tname(chunk[0][1]))),
                                   {'m': m, 't': t, 'no_prss': np_, 'jobs': [(tname(S), tname(T), v, s) for S, T, v, s in chunk],
@@ -382,10 +405,11 @@ def run(ctx):
                     o = await o
                     out['%s->%s/%s' % (sn, tn, mn)] = [int(round(float(v) * (1 << frac(T)))) if T[0] == 'fxp' else int(v) for v in o]
                 return out
-            sim = Sim(m=m, t=t, no_prss=rng.random() < 0.5, seed=ctx.seed * 19 + m)
+            sim = Sim(m=m, t=t, no_prss=rng.random() < 0.5, seed=ctx.seed * 19 + m, log_messages=False, track_tasks=False)
             try:
                 sim.start()
-                res = sim.run(aprog, idle_limit=100000, max_rounds=10 ** 12)
+                res = sim.run(aprog, idle_limit=300000, max_rounds=300000)
+                note_rounds(ctx, 'alias', sim.rounds, 300000)
                 for (S, T) in pairs:
                     for mn in muts:
                         key = '%s->%s/%s' % (tname(S), tname(T), mn)
